@@ -1096,6 +1096,7 @@ type attributeCacheKey struct {
 // attributeCacheEntry represents a cached attribute lookup result
 type attributeCacheEntry struct {
 	fieldIndex  int       // Index of the field (-1 if not a field)
+	fieldPath   []int     // Full index path of the field (promoted fields have more than one step)
 	isMethod    bool      // Whether this is a method
 	methodIndex int       // Index of the method (-1 if not a method)
 	ptrMethod   bool      // Whether the method is on the pointer type
@@ -1318,7 +1319,8 @@ func (ctx *RenderContext) getAttribute(obj interface{}, attr string) (interface{
 			// Look for a field
 			field, found := objType.FieldByName(attr)
 			if found {
-				entry.fieldIndex = field.Index[0] // Assuming single-level field access
+				entry.fieldIndex = field.Index[0]
+				entry.fieldPath = field.Index
 			}
 
 			// Look for a method on the value
@@ -1348,8 +1350,10 @@ func (ctx *RenderContext) getAttribute(obj interface{}, attr string) (interface{
 
 	// Try field access first
 	if entry.fieldIndex >= 0 {
-		field := objValue.Field(entry.fieldIndex)
-		if field.IsValid() && field.CanInterface() {
+		// FieldByIndexErr follows promoted fields through embedded structs and
+		// reports a nil embedded pointer instead of panicking
+		field, err := objValue.FieldByIndexErr(entry.fieldPath)
+		if err == nil && field.IsValid() && field.CanInterface() {
 			return field.Interface(), nil
 		}
 	}
